@@ -129,3 +129,34 @@ def shaped_payload(shape: str, salt: int, prefix: bytes) -> bytes:
         raise ValueError(shape)
     assert len(out) == SHAPE_SIZE[shape], (shape, len(out))
     return out
+
+
+CELL_MESSAGE_IDS = (1, 2, 3, 4, 5, 6, 7, 19, 20)
+
+
+def _varlen_h(b: bytes) -> bytes:
+    return struct.pack(">H", len(b)) + b
+
+
+def wellformed_message(mid: int, data_msg: bytes, public_key_bin: bytes) -> bytes:
+    """
+    A syntactically valid tunnel message of every kind a TunnelCommunity dispatches from a cell:
+    1 data, 2 create, 3 created, 4 extend, 5 extended, 6 ping, 7 pong, 19 test-request, 20 test-response.
+    """
+    ident = struct.pack(">H", 0x4C04)
+    dh = bytes(range(1, 33))
+    if mid == 1:
+        return data_msg
+    if mid == 2:
+        return b"\x02" + ident + _varlen_h(public_key_bin) + _varlen_h(dh)
+    if mid in (3, 5):
+        return bytes([mid]) + ident + _varlen_h(dh) + bytes(32) + b"candidates"
+    if mid == 4:
+        return b"\x04" + ident + _varlen_h(public_key_bin) + _varlen_h(dh) + socket.inet_aton("9.9.9.9") + struct.pack(">H", 99)
+    if mid in (6, 7):
+        return bytes([mid]) + ident
+    if mid == 19:
+        return b"\x13" + ident + struct.pack(">H", 16) + b"test-request-data"
+    if mid == 20:
+        return b"\x14" + ident + b"test-response-data"
+    raise ValueError(mid)
